@@ -90,9 +90,34 @@ class Decl:
                 emits = r.choice([True, True, False, 'invalidates'])
                 props[pn] = (sig, access, emits)
             decl.append((name, props))
+        self.twin = None
+        if nif > 1 and r.random() < 0.25:
+            # two interfaces whose (interface name + property name) concatenations coincide: org.x.I0 + 'X'+pn and
+            # org.x.I0X + pn are different properties and must not share a value
+            pn = sorted(decl[1][1])[0]
+            decl[1] = (decl[0][0] + 'X', decl[1][1])
+            decl[0][1]['X' + pn] = (r.choice(list(VALUES)), r.choice(['read', 'readwrite', 'readwrite', 'write']),
+                                    r.choice([True, False, 'invalidates']))
+            self.twin = (decl[0][0], 'X' + pn, decl[1][0], pn)
         two_levels = nif > 1 and r.random() < 0.6
         cut = r.randint(1, nif - 1) if two_levels else nif
         base_ifs, derived_ifs = decl[:cut], decl[cut:]
+        # descriptors of a base-class interface may live on the derived class (all of them, some of them, or none
+        # while the derived class binds only a method of that interface)
+        self.split = None
+        moved = set()
+        touch_iface = None
+        if r.random() < 0.45:
+            n, props = r.choice(base_ifs)
+            mode = r.choice(['some', 'all', 'method-only'])
+            if mode == 'some' and len(props) > 1:
+                moved = {(n, pn) for pn in r.sample(sorted(props), r.randint(1, len(props) - 1))}
+            elif mode == 'all':
+                moved = {(n, pn) for pn in props}
+            else:
+                mode = 'method-only'
+                touch_iface = n
+            self.split = (mode, n)
         counts = {}
         for _, props in decl:
             for pn in props:
@@ -100,21 +125,30 @@ class Decl:
         self.collisions = {pn for pn, c in counts.items() if c > 1}
         self.attr = {}             # (iface, pname) -> attribute name
 
-        def build(cname, base, ifs):
+        def build(cname, base, ifs, hosted):
             attrs = {'dbusInterfaces': [
-                I.DBusInterface(n, *[I.Property(pn, sig, readable=acc != 'write', writeable=acc != 'read',
-                                                emitsOnChange=em) for pn, (sig, acc, em) in props.items()],
+                I.DBusInterface(n, *([I.Property(pn, sig, readable=acc != 'write', writeable=acc != 'read',
+                                                 emitsOnChange=em) for pn, (sig, acc, em) in props.items()] +
+                                     ([I.Method('Touch')] if n == touch_iface else [])),
                                 noRegister=True) for n, props in ifs]}
-            for n, props in ifs:
-                for pn in props:
-                    an = 'p_%s_%s' % (n.rsplit('.', 1)[1], pn)
-                    explicit = pn in self.collisions or r.random() < 0.3
-                    attrs[an] = O.DBusProperty(pn, n) if explicit else O.DBusProperty(pn)
-                    self.attr[(n, pn)] = an
+            for n, pn in hosted:
+                an = 'p_%s_%s' % (n.rsplit('.', 1)[1], pn)
+                explicit = pn in self.collisions or r.random() < 0.3
+                attrs[an] = O.DBusProperty(pn, n) if explicit else O.DBusProperty(pn)
+                self.attr[(n, pn)] = an
+            if touch_iface and base is not O.DBusObject:
+                def touch(self_):
+                    return None
+                attrs['touch'] = O.dbusMethod(touch_iface, 'Touch')(touch)
             return type(cname, (base,), attrs)
 
-        Base = build('PBase%s' % cid, O.DBusObject, base_ifs)
-        cls = build('PDerived%s' % cid, Base, derived_ifs) if derived_ifs else Base
+        all_base = [(n, pn) for n, props in base_ifs for pn in props]
+        all_derived = [(n, pn) for n, props in derived_ifs for pn in props]
+        Base = build('PBase%s' % cid, O.DBusObject, base_ifs, [k for k in all_base if k not in moved])
+        if derived_ifs or self.split:
+            cls = build('PDerived%s' % cid, Base, derived_ifs, all_derived + [k for k in all_base if k in moved])
+        else:
+            cls = Base
         self.cls = cls
         self.ifaces = derived_ifs + base_ifs
         self.props = {(n, pn): spec for n, props in self.ifaces for pn, spec in props.items()}
@@ -127,13 +161,35 @@ def run_case(ctx, seed, idx):
     saved = dict(I.DBusInterface.knownInterfaces)
     try:
         d = Decl(r, idx)
-        obj = d.cls('/p')
         model = {}          # (iface, pname) -> value
         keys = sorted(d.props)
         first_touch = list(keys)
         r.shuffle(first_touch)
+        early = []
+        if r.random() < 0.3:
+            # a subclass whose constructor assigns its properties BEFORE running the base-class constructor (the
+            # descriptors create the store lazily for exactly that use; upstream's own tests read one that early)
+            n_early = r.randint(1, len(first_touch))
+            early = [(key, r.choice(VALUES[d.props[key][0]])) for key in first_touch[:n_early]]
+            first_touch = first_touch[n_early:]
+
+            def early_init(self_, path, _early=early, _attr=d.attr):
+                for key_, v_ in _early:
+                    setattr(self_, _attr[key_], v_)
+                O.DBusObject.__init__(self_, path)
+            d.cls = type('PEarly%s' % idx, (d.cls,), {'__init__': early_init})
+        try:
+            obj = d.cls('/p')
+        except Exception as e:
+            ctx.report('early-assignment-raised', 'constructing an object whose constructor assigns properties before the '
+                       'base constructor raised %r' % e, {'early': [[list(k), repr(v)] for k, v in early]}, case)
+            return
+        for key, v in early:
+            model[key] = v
+            ctx.count('early_assignments')
         w = {'interfaces': [(n, {pn: list(spec) for pn, spec in props.items()}) for n, props in d.ifaces],
-             'collisions': sorted(d.collisions), 'two_levels': d.two_levels, 'first_touch': first_touch, 'history': []}
+             'collisions': sorted(d.collisions), 'two_levels': d.two_levels, 'first_touch': first_touch, 'history': [],
+             'assigned_before_base_constructor': [[list(k), repr(v)] for k, v in early]}
         ctx.distinct('first_touch_orders', (tuple(sorted(d.collisions)), tuple(first_touch[:2]), d.two_levels))
         # every property is assigned before export, in a random first-touch order
         for key in first_touch:
@@ -149,6 +205,22 @@ def run_case(ctx, seed, idx):
                 return
             model[key] = v
             w['history'].append(['assign-before-export', list(key), repr(v)])
+        w['split'] = d.split
+        w['twin'] = d.twin
+        for key in keys:
+            try:
+                back = getattr(obj, d.attr[key])
+            except Exception as e:
+                back = e
+            if isinstance(back, Exception) or not R.plain_eq(norm(back), norm(model[key])):
+                twin = d.twin and key in ((d.twin[0], d.twin[1]), (d.twin[2], d.twin[3]))
+                ctx.report('store-key-collision' if twin else 'local-readback',
+                           'after assigning every property once, %s.%s reads back %r, assigned %r%s' % (
+                               key[0], key[1], back, model[key],
+                               ' (it shares its store with %s.%s)' % ((d.twin[2:] if key == d.twin[:2] else d.twin[:2])
+                                                                      if twin else ('', ''))), w, case)
+                return
+            ctx.count('first_readbacks_ok')
         peer = clientfix.Peer().ready()
         conn = peer.proto
         try:
@@ -313,7 +385,9 @@ def run_case(ctx, seed, idx):
                 # the value must (not) have changed: local read-back of every property of that name
                 for k2 in keys:
                     if not R.plain_eq(norm(getattr(obj, d.attr[k2])), norm(model[k2])):
-                        ctx.report('set-side-effect', 'after Set(%s, %s) property %s.%s reads %r, expected %r' % (
+                        twin_ = d.twin and {key, k2} == {(d.twin[0], d.twin[1]), (d.twin[2], d.twin[3])}
+                        ctx.report('store-key-collision' if twin_ else 'set-side-effect',
+                                   'after Set(%s, %s) property %s.%s reads %r, expected %r' % (
                             iface, pn, k2[0], k2[1], getattr(obj, d.attr[k2]), model[k2]), w, case)
                         return
                 ctx.distinct('nontrivial_cases', ('set', sig, access, emits, key[1] in d.collisions, d.two_levels))
@@ -339,8 +413,11 @@ def run_case(ctx, seed, idx):
                     return
                 want = {pn: norm(model[(n, pn)]) for (n, pn), spec in d.props.items() if n == iface and spec[1] != 'write'}
                 if not R.plain_eq(m.body[0], want):
-                    ctx.report('getall-content', 'GetAll(%s) returned %r, readable properties are %r' % (
-                        iface, m.body[0], want), w, case)
+                    split_ = d.split and d.split[1] == iface and set(m.body[0]) < set(want)
+                    ctx.report('getall-split-hierarchy' if split_ else 'getall-content',
+                               'GetAll(%s) returned %r, readable properties are %r%s' % (
+                                   iface, m.body[0], want, ' (bindings of this interface are spread over base and derived '
+                                   'class: %s)' % d.split[0] if split_ else ''), w, case)
                     return
                 for pn, var in m.body_typed[0]:
                     s_ = d.props[(iface, pn)][0]
